@@ -7,6 +7,7 @@ import z3
 
 from . import theory as T
 from .values import *  # noqa
+from .models import TypeOf as TypeOfV
 
 IFACE = ("evaluate", "validate", "keys", "explain")
 LABREA_IMPL = {"__labrea_evaluate__": "evaluate", "__labrea_validate__": "validate", "__labrea_keys__": "keys", "__labrea_explain__": "explain"}
@@ -121,27 +122,50 @@ class ExprMixin:
         return KSetV([("one", self.as_key(x)) for x in items])
 
     def e_Dict(self, node, env):
-        d = PyDict()
-        sym_parts = []
+        cur = PyDict()
         for k, v in zip(node.keys, node.values):
             if k is None:
                 x = self.eval(v, env)
-                if isinstance(x, PyDict):
-                    d.items.update(x.items)
-                elif x is None or (isinstance(x, PyDict) and not x.items):
-                    pass
+                if isinstance(x, PyDict) and isinstance(cur, PyDict):
+                    cur.items.update(x.items)
+                elif x is None:
+                    raise Unsupported("** of None")
                 else:
-                    sym_parts.append(("**", x, dict(d.items)))
-                    d = PyDict()
+                    cur = self.arrdict_update(self.to_arrdict(cur), self.to_arrdict(x))
             else:
                 kk = self.eval(k, env)
-                if isinstance(kk, Sym):
-                    sym_parts.append(("kv", kk, self.eval(v, env)))
-                    continue
-                d.items[self.hashable(kk)] = self.eval(v, env)
-        if sym_parts:
-            return self.dict_merge(sym_parts, d)
-        return d
+                vv = self.eval(v, env)
+                if isinstance(cur, PyDict) and not isinstance(kk, (Sym, TypeOfV)):
+                    cur.items[self.hashable(kk)] = vv
+                else:
+                    cur = self.to_arrdict(cur)
+                    kt = self.as_val(kk)
+                    cur = ArrDict(z3.Store(cur.present, kt, True), z3.Store(cur.vals, kt, self.as_val(vv)))
+        return cur
+
+    def to_arrdict(self, d):
+        if isinstance(d, ArrDict):
+            return d
+        if isinstance(d, PyDict):
+            p = z3.K(T.Val, z3.BoolVal(False))
+            vs = z3.K(T.Val, T.DFLT)
+            for k, v in d.items.items():
+                kt = self.as_val(k)
+                p = z3.Store(p, kt, True)
+                vs = z3.Store(vs, kt, self.as_val(v))
+            return ArrDict(p, vs)
+        if isinstance(d, HeapMap):
+            present, vals = self.heap[d.name]
+            return ArrDict(present, vals)
+        if isinstance(d, Sym) and d.kind == "val":
+            return ArrDict(z3.Function("valmap#p", T.Val, z3.ArraySort(T.Val, T.B))(d.term),
+                           z3.Function("valmap#v", T.Val, z3.ArraySort(T.Val, T.Val))(d.term))
+        raise Unsupported(f"dict display with ** of {d!r}")
+
+    def arrdict_update(self, a, b):
+        t = z3.Const("t!ad", T.Val)
+        return ArrDict(z3.Lambda([t], z3.Or(b.present[t], a.present[t])),
+                       z3.Lambda([t], z3.If(b.present[t], b.vals[t], a.vals[t])))
 
     def hashable(self, k):
         if isinstance(k, (str, int, bool, type(None), MissingT, ClassRef)):
@@ -184,6 +208,8 @@ class ExprMixin:
                     return v
                 # `options or {}`: an options mapping that is falsy is the empty mapping
                 if isinstance(v, Sym) and v.kind == "opt":
+                    return v
+                if isinstance(v, ArrDict):
                     return v
                 if self.truth(v):
                     return v
@@ -404,6 +430,11 @@ class ExprMixin:
             self.do_raise(self.make_builtin_exc("IndexError", []))
         if isinstance(v, HeapMap):
             return self.heapmap_get(v, i)
+        if isinstance(v, ArrDict):
+            kt = self.as_val(i)
+            if self.fork(v.present[kt]):
+                return Sym("val", v.vals[kt])
+            self.do_raise(self.make_builtin_exc("KeyError", []))
         if isinstance(v, Sym) and v.kind == "opt":
             k = self.as_key(i)
             if self.fork(T.haskey_top(v.term, k)):
@@ -531,7 +562,7 @@ class ExprMixin:
             if v.name in self.repo.modules:
                 return self.module_name(self.repo.modules[v.name], name)
             return self.external(v.name, name)
-        if isinstance(v, (PyDict, PyList, PyTuple, KSetV, MapV, SeqV, HeapMap, LockV, Partial)) or type(v).__name__ in ('LoggerV', 'RegexV', 'MapKeys') or (isinstance(v, Sym) and v.kind in ("opt", "key")) \
+        if isinstance(v, (PyDict, PyList, PyTuple, KSetV, MapV, SeqV, HeapMap, LockV, Partial, ArrDict, HeapListRef)) or type(v).__name__ in ('LoggerV', 'RegexV', 'MapKeys') or (isinstance(v, Sym) and v.kind in ("opt", "key")) \
                 or isinstance(v, str):
             return Builtin_valmethod(v, name)
         if isinstance(v, PyFunc):
